@@ -3,7 +3,7 @@
 #   vp run --with-repo -- tools/bg_soak.sh <seed> <runs|default> <check>...   (seed may be a comma list)
 SEEDS=$1; RUNS=$2; shift 2
 R=${VP_RUN_REPO:?needs --with-repo}
-sed -i "s#/repo/src/lib.rs#$R/src/lib.rs#" sim/Cargo.toml
+sed -i "s#/repo/src/lib.rs#$R/src/lib.rs#" sim/Cargo.toml; sed -i "s#/repo/src/#$R/src/#g" miri/src/main.rs
 export CARGO_NET_OFFLINE=true
 (cd sim && cargo build --profile sim --offline 2>&1 | tail -1)
 if [ "$RUNS" != "default" ]; then export VERIF_RUNS=$RUNS; fi
